@@ -5,6 +5,7 @@ from engine import strx, vtime
 from engine.harness import Harness
 from engine.symx import SBool, SNum, all_of
 from engine.vtime import PinnedClock, SDatetime, STimedelta, real_datetime, real_timedelta
+from harness import c07_fp
 from harness import c07_names as N
 from harness.common import SEC, T0, Y2000, Y2050, Y2100, run_async, try_consume
 
@@ -283,6 +284,15 @@ HARNESSES = [
     Harness(name="L-FP", scenario=None, kind="custom", custom=h07_lemma, params={"replay": lambda v: {"reproduced": False, "failed": []}},
             bounds={"N": "[0, 100 julian years] µs", "model": "IEEE-754 round-to-nearest half-ulp bounds: 2^-22 s on N/1e6 (< 2^32 s), 2^-34 on the fractional product (< 2^20)"},
             covers=["lemma"], stubs=["bit-precise QF_BVFP encoding did not finish in 15 min in either solver (design phase); the claim rests on the error model"]),
+    Harness(name="H07-codec-fp", scenario=None, kind="custom", custom=c07_fp.run, params={"replay": c07_fp.rep},
+            bounds={"N": "[0, 100 julian years] µs per duration field (8 fields of Parameters, ResultProperties, DelayProperties, ArgsBucket, ResultBucket)",
+                    "time cap": "60 s (quick) / 300 s (thorough) per bit-precise query; none is needed while every field has the lemma's shape"},
+            functions=["data/_parameters.py:Parameters.decode", "data/_parameters.py:DelayProperties.decode", "data/_parameters.py:ResultProperties.decode",
+                       "data/_buckets.py:ArgsBucket.decode", "data/_buckets.py:ResultBucket.decode"],
+            covers=["lemma-shape"],
+            stubs=["CPython's timedelta constructor (delta_new/accum) and int/int true division modelled on z3 FloatingPoint/BitVec terms, checked against the "
+                   "real ones on boundary values at every run; JSON number text <-> double is the identity (shortest repr round trip)"],
+            outside=["float kernels that branch on a symbolic value or use operations the proxies lack are reported as inconclusive, not as holding"]),
     strx.as_harness("H07-names-redis", N.names_redis, N.replay_names_redis,
                     bounds={"queue, topic": "every string in L(VALID_NAME) (unbounded length)", "id": "every string in L(VALID_ID)", "priority": "any int >= 0"},
                     covers=["parsed-full", "parsed-short", "queue-names"]),
